@@ -694,7 +694,13 @@ def rule_W_CLEAR(ctx, d):
         resets = [e for e in evs if e.kind == 'STATRESET']
         good_reset = [e for e in resets if e.args[0] == d.stats and e.args[1] == ('slice', NONE, NONE, NONE)
                       and e.args[2][0] == 'list' and len(e.args[2][1]) == 3 and all(x == C(0) for x in e.args[2][1])]
-        other = [e for e in evs if e.kind in ('STAT', 'STATSET')] + [e for e in resets if e not in good_reset]
+        # element-wise form: every counter set to 0 (stats[0] = stats[1] = stats[2] = 0; also what `nonlocal` counters normalise to)
+        elem0 = [e for e in evs if e.kind == 'STATSET' and e.args[0] == d.stats and is_const(e.args[1]) and e.args[2] == C(0)]
+        if len(d.stat_index) >= 3 and set(e.args[1][1] for e in elem0) >= set(d.stat_index) and not good_reset:
+            good_reset = elem0[:1]
+        else:
+            elem0 = []
+        other = [e for e in evs if e.kind in ('STAT', 'STATSET') and e not in elem0] + [e for e in resets if e not in good_reset]
         # truth of keepstats on this path
         kt = o.st.facts.get('truth', {}).get(keep) if keep else None
         if kt is True:
@@ -821,6 +827,12 @@ def rule_W_LOOKUP(ctx, d):
                     ctx.fail('W-LOOKUP', cq(d, node.name), '%s() result %s' % (name, render(val)), msg, where(d, o.line), render_path(o))
             elif o.kind == RAISE and o.exc == 'KeyError' and any(e.kind == 'GETMISS' for e in o.st.events):
                 saw_keyerror = True
+            elif o.kind == RAISE and o.exc == 'KeyError' and name == 'lookup' and any(e.kind == 'GET' for e in o.st.events) \
+                    and not any(e.kind in ('GETMISS', 'CAUGHT') for e in o.st.events):
+                ctx.ob('W-LOOKUP', None, False)
+                ctx.fail('W-LOOKUP', cq(d, node.name), 'KeyError although an entry was found',
+                         'lookup() raises KeyError on a path where the cache returned an entry for the key (the value is tested, e.g. `is None`): a call whose stored '
+                         'result is None is resident and served as a hit, yet lookup() reports it as not stored', where(d, o.line), render_path(o))
         if name == 'lookup':
             ctx.ob('W-LOOKUP', d.name + '.lookup KeyError', saw_keyerror)
             if not saw_keyerror:
@@ -922,6 +934,17 @@ def rule_W_IFACE(ctx, d):
 
 def rule_W_UPDATER(ctx, d):
     """a module-local replacement for functools.update_wrapper must leave wrapper.__wrapped__ == the decorated function"""
+    # update_wrapper(wrapper, X) ends with wrapper.__wrapped__ = X: X is the decorated function itself, not something derived from it
+    for n_ in ast.walk(d.call_fi.node):
+        if isinstance(n_, ast.Call) and unparse(n_.func).split('.')[-1] in ('update_wrapper',) and len(n_.args) >= 2:
+            fnarg = d.call_fi.node.args.args[1].arg
+            ok = isinstance(n_.args[1], ast.Name) and n_.args[1].id == fnarg
+            ctx.ob('W-IFACE', '%s: update_wrapper(wrapper, %s)' % (d.name, fnarg), ok)
+            if not ok:
+                ctx.fail('W-IFACE', wq(d), 'update_wrapper(wrapper, %s)' % ' '.join(unparse(n_.args[1]).split())[:40],
+                         'the wrapper is finished with update_wrapper(wrapper, %s): update_wrapper\'s last step sets wrapper.__wrapped__ to its second argument, overwriting '
+                         'the assignment above - for a cached functools.partial (or whatever that expression strips) __wrapped__ is no longer the object the cache calls, '
+                         'and f.__wrapped__(*args) computes something else than f(*args) stores' % ' '.join(unparse(n_.args[1]).split())[:40], where(d, n_.lineno))
     fi = d.module.functions.get('update_wrapper') or d.module.functions.get('wraps')
     umod = d.module
     if getattr(d, 'updater', None) is not None:
@@ -1558,6 +1581,19 @@ def rule_W_STATE(ctx, d, keys=('maxsize', 'purge'), allow_default=False):
     run-time condition of the cache (e.g. purge switched off because no archive is attached *yet*) freezes a setting the user can still change
     through f.archive(...)."""
     init = d.ci.methods.get('__init__')
+    # a default value is evaluated once, when the class is defined: an object built there (keymap=hashmap(flat=True), cache={}) is shared by every decorator
+    # that does not pass its own - settings changed through one function's keymap then change the keys of all the others
+    ia = init.node.args
+    for arg_, dv in list(zip(ia.args[len(ia.args) - len(ia.defaults):], ia.defaults)) + [(a_, v_) for a_, v_ in zip(ia.kwonlyargs, ia.kw_defaults) if v_ is not None]:
+        okd = isinstance(dv, ast.Constant) or (isinstance(dv, ast.UnaryOp) and isinstance(dv.operand, ast.Constant)) or \
+            (isinstance(dv, ast.Tuple) and all(isinstance(e_, ast.Constant) for e_ in dv.elts)) or (isinstance(dv, ast.Name) and dv.id in ('None', 'True', 'False'))
+        ctx.ob('W-STATE', '%s.__init__ default of %s is a constant' % (d.name, arg_.arg), okd)
+        if not okd:
+            ctx.fail('W-STATE', init.qual, 'shared default object for %s' % arg_.arg,
+                     '%s.__init__ declares `%s=%s`: the default is one object created at class definition and shared by all decorators built without that argument. '
+                     'Keymaps and caches are mutable (f.__map__() hands the keymap out; its typed / sentinel settings can be assigned): reconfiguring it through one cached '
+                     'function changes the keys the others compute, so their key() / lookup() no longer find what they stored' % (d.name, arg_.arg, unparse(dv)[:40]),
+                     where(d, init.node.lineno))
     eng = Engine(PlainModel(d.module), unroll=1)
     iparams = [a.arg for a in init.node.args.args]
     outs = eng.run_function(init.node, {}, params={iparams[0]: SELF})
@@ -1762,6 +1798,16 @@ def rule_W_LOCAL(ctx, d):
                 if hasattr(builtins, n.id):
                     continue
                 # module level: functions, classes, imports are fine; data objects are shared mutable state
+                if n.id in m.imports and m.imports[n.id].split('.')[0] == 'random' and m.imports[n.id] != 'random':
+                    # from random import choice at module level: update_wrapper rewrites wrapper.__module__, so dill pickles the wrapper's globals by value -
+                    # including this bound method of the process-wide generator, with a copy of its state
+                    ok_all = False
+                    ctx.fail('W-LOCAL', cq(d, fn.name), 'module-level binding of random.%s' % m.imports[n.id].split('.')[-1],
+                             'closure %s reads `%s`, bound at module level to a function of the random module (a bound method of the hidden, process-wide generator): a '
+                             'function pickled by value carries a copy of that generator, so the clone draws from a private, frozen stream and ignores random.seed() - it '
+                             'evicts other entries than the original under the same continuation.  Imported inside the wrapper the name is resolved per call'
+                             % (fn.name, n.id), where(d, n.lineno))
+                    continue
                 if n.id in m.functions or n.id in m.classes_by_name or n.id in m.imports:
                     continue
                 if n.id in m.consts and isinstance(m.consts[n.id], ast.Constant):
